@@ -135,6 +135,7 @@ inductive Flag
                                    -- but installedFiles tracks only regular files that were written
   | throughLink (name : Text) (dest : Text)  -- F07d: memfs, the body was written through a dangling symlink
   | alias (name : Text)            -- F07g: the path was reached through a directory symlink
+  | baseKept (name : Text)         -- F07i: kept because identical to a file no package installed (nobody becomes its owner)
   deriving DecidableEq, Repr
 
 def decisionFlags (c : Cfg) (name : Text) (got : Pkg) (gotSum : Text) (want : Pkg) (wantSum : Text) : List Flag :=
@@ -245,6 +246,13 @@ def aliasFlag (t : Tree) (e : Entry) : List Flag :=
   | some d => if d = (parts e.name).dropLast then [] else [.alias e.name]
   | none => []
 
+/-- F07d (second form): the streaming backends `Stat` through a symlink at the path and judge the
+file it points to -/
+def statThroughFlag (t : Tree) (e : Entry) : List Flag :=
+  match resolve t (parts e.name), parentOf t (parts e.name) with
+  | .found p, some d => if p = d ++ [(parts e.name).getLastD []] then [] else [.throughLink e.name (joinNames p)]
+  | _, _ => []
+
 def addFlags (fl : List Flag) : Except (Outcome × List Flag) (St × Bool) → Except (Outcome × List Flag) (St × Bool)
   | .ok (st, b) => .ok ({ st with flags := st.flags ++ fl }, b)
   | .error (o, f) => .error (o, f ++ fl)
@@ -291,7 +299,10 @@ def lazyFile (c : Cfg) (pkgs : List Pkg) (i : Nat) (e : Entry) (st : St) : Excep
         | some j => decided j s false
     | some (.file s _ owner empty) =>
       match owner with
-      | none => if empty then .error (.error, st.flags) else if s = e.sum then .ok (st, true) else .error (.error, st.flags)
+      | none =>
+        if empty then .error (.error, st.flags)
+        else if s = e.sum then .ok ({ st with flags := st.flags ++ (if c.spec then [] else [.baseKept e.name]) }, true)
+        else .error (.error, st.flags)
       | some j => decided j s true
 
 /-- `installRegularFile` + `writeOneFile` on the streaming backends -/
@@ -321,7 +332,10 @@ def streamReg (c : Cfg) (pkgs : List Pkg) (i : Nat) (e : Entry) (st : St) : Exce
         | none => decideUnowned c s want e.sum
       let fl := match owner with
         | some j => if c.spec then [] else decisionFlags c e.name (pkgs.getD j default) s want e.sum
-        | none => if c.spec ∨ dec = decideUnowned { c with spec := true } s want e.sum then [] else [.emptyOrigin e.name]
+        | none =>
+          if c.spec then []
+          else if dec = decideUnowned { c with spec := true } s want e.sum then (if dec = .keep then [.baseKept e.name] else [])
+          else [.emptyOrigin e.name]
       match dec with
       | .keep => .ok ({ st with flags := st.flags ++ fl, log := st.log ++ [(p, i, dec)] }, true)
       | .overwrite =>
@@ -356,8 +370,9 @@ def stepEntry (c : Cfg) (pkgs : List Pkg) (i : Nat) (e : Entry) (st : St) : Exce
     match mkdirAll st.tree (parts e.name) (permOf e) with
     | none => .error (.error, st.flags)
     | some t => .ok ({ st with tree := t }, true)
-  | .reg => addFlags (if c.spec then [] else aliasFlag st.tree e)
-      (if c.backend = .lazy then lazyFile c pkgs i e st else streamReg c pkgs i e st)
+  | .reg =>
+    if c.backend = .lazy then addFlags (if c.spec then [] else aliasFlag st.tree e) (lazyFile c pkgs i e st)
+    else addFlags (if c.spec then [] else aliasFlag st.tree e ++ statThroughFlag st.tree e) (streamReg c pkgs i e st)
   | .link => addFlags (if c.spec then [] else aliasFlag st.tree e)
       (if c.backend = .lazy then lazyFile c pkgs i e st else streamLink c i e st)
 
